@@ -554,6 +554,66 @@ OP(bc_aes_cbc) {
 	out_int(r); out_int(r2);
 	if (r == RLC_OK && r2 == RLC_OK) out_bytes(buf2, ol2);
 }
+/* ---- output-capacity faults: functions with an in/out length run once with a large buffer to learn the
+ * required size, then with a heap block of exactly need + delta bytes (delta from the plan's cap= field).
+ * delta < 0 must be reported (and nothing written beyond the block: sanitizer); delta >= 0 must succeed. ---- */
+static long cap_delta = 0;
+static int cap_log = 0;
+static void cap_note(const char *what, size_t need, int ok, int same) {
+	out_int(cap_delta); out_int(ok); out_int(same);
+	if (cap_log) tr_printf("CAP %s need=%zu delta=%ld ok=%d same=%d\n", what, need, cap_delta, ok, same);
+}
+#define CAPRUN(WHAT, NEEDVAR, CALL_BIG, CALL_EXACT) do { \
+	size_t ol = sizeof(buf); int r = 0; \
+	CALL_BIG; \
+	if (r != RLC_OK || err_get_code() != RLC_OK) { out_int(-1); break; } \
+	size_t NEEDVAR = ol; \
+	long cap = (long)NEEDVAR + cap_delta; if (cap < 0) cap = 0; \
+	uint8_t *o = (uint8_t *)sim_sys_malloc((size_t)cap ? (size_t)cap : 1); \
+	ol = (size_t)cap; r = 0; \
+	int thrown_ = 0; \
+	RLC_TRY { CALL_EXACT; } RLC_CATCH_ANY { thrown_ = 1; } \
+	int ok_ = (r == RLC_OK && !thrown_ && err_get_code() == RLC_OK); \
+	cap_note(WHAT, NEEDVAR, ok_, ok_ && ol == NEEDVAR && (detcmp ? memcmp(o, buf, NEEDVAR) == 0 : 1)); \
+	sim_sys_free(o); \
+} while (0)
+OP(cap_aes_enc) {
+	uint8_t key[16], iv[16]; int detcmp = 1;
+	memset(key, 7, 16); memset(iv, 9, 16);
+	CAPRUN("bc_aes_cbc_enc", need, W(r = bc_aes_cbc_enc(buf, &ol, msg, msg_len, key, 16, iv)), W(r = bc_aes_cbc_enc(o, &ol, msg, msg_len, key, 16, iv)));
+}
+OP(cap_aes_dec) {
+	uint8_t key[16], iv[16]; int detcmp = 1;
+	size_t cl = sizeof(buf2);
+	memset(key, 7, 16); memset(iv, 9, 16);
+	if (bc_aes_cbc_enc(buf2, &cl, msg, msg_len, key, 16, iv) != RLC_OK) { out_int(-2); return; }
+	CAPRUN("bc_aes_cbc_dec", need, W(r = bc_aes_cbc_dec(buf, &ol, buf2, cl, key, 16, iv)), W(r = bc_aes_cbc_dec(o, &ol, buf2, cl, key, 16, iv)));
+}
+OP(cap_rsa_enc) {
+	int detcmp = 0;
+	size_t ml = 1 + msg_len % 40;
+	CAPRUN("cp_rsa_enc", need, W(r = cp_rsa_enc(buf, &ol, msg, ml, rsa_pub)), W(r = cp_rsa_enc(o, &ol, msg, ml, rsa_pub)));
+}
+OP(cap_rsa_dec) {
+	int detcmp = 1;
+	size_t ml = 1 + msg_len % 40, cl = sizeof(buf2);
+	if (cp_rsa_enc(buf2, &cl, msg, ml, rsa_pub) != RLC_OK) { out_int(-2); return; }
+	CAPRUN("cp_rsa_dec", need, W(r = cp_rsa_dec(buf, &ol, buf2, cl, rsa_prv)), W(r = cp_rsa_dec(o, &ol, buf2, cl, rsa_prv)));
+}
+OP(cap_rsa_sig) {
+	int detcmp = 1;
+	CAPRUN("cp_rsa_sig", need, W(r = cp_rsa_sig(buf, &ol, msg, msg_len, 0, rsa_prv)), W(r = cp_rsa_sig(o, &ol, msg, msg_len, 0, rsa_prv)));
+}
+OP(cap_ecies_enc) {
+	int detcmp = 0;
+	CAPRUN("cp_ecies_enc", need, W(r = cp_ecies_enc(PR[0], buf, &ol, msg, msg_len, ec_q)), W(r = cp_ecies_enc(PR[1], o, &ol, msg, msg_len, ec_q)));
+}
+OP(cap_ecies_dec) {
+	int detcmp = 1;
+	size_t cl = sizeof(buf2);
+	if (cp_ecies_enc(PR[0], buf2, &cl, msg, msg_len, ec_q) != RLC_OK) { out_int(-2); return; }
+	CAPRUN("cp_ecies_dec", need, W(r = cp_ecies_dec(buf, &ol, PR[0], buf2, cl, ec_d)), W(r = cp_ecies_dec(o, &ol, PR[0], buf2, cl, ec_d)));
+}
 OP(rand_reseed) { W(rand_seed(msg, msg_len); rand_bytes(buf, 40)); out_bytes(buf, 40); }
 
 /* ---- mpc ---- */
@@ -840,7 +900,8 @@ static const op_t ops[] = {
 	E(ep_mul_sim_gen, 0), E(ep_mul_sim_lot0, 0), E(ep_mul_sim_lot1, 0), E(ep_mul_sim_lot2, 0), E(ep_mul_sim_lot5, 0), E(ep_mul_sim_lotn, 0),
 	E(ep_mul_sim_dig, 0), E(ep_map, 0), E(ep_map_basic, 0), E(ep_map_swift, 0), E(ep_pck_upk, 0), E(ep_write_bin, 0),
 	E(ep_read_bin, 0), E(ep_rand, 0), E(ep_blind, 0), E(ep_on_curve, 0), E(ep_tab, 0),
-	E(md_kdf, 0), E(md_mgf, 0), E(md_hmac, 0), E(md_xmd, 0), E(bc_aes_cbc, 0), E(rand_reseed, 0),
+	E(md_kdf, 0), E(md_mgf, 0), E(md_hmac, 0), E(md_xmd, 0), E(bc_aes_cbc, 0), E(rand_reseed, 0), E(cap_aes_enc, 0), E(cap_aes_dec, 0), E(cap_rsa_enc, 0), E(cap_rsa_dec, 0),
+	E(cap_rsa_sig, 0), E(cap_ecies_enc, 0), E(cap_ecies_dec, 0),
 	E(mpc_sss, 0), E(mpc_mt, 0),
 	E(cp_rsa_enc_dec, 0), E(cp_rsa_sig_ver, 0), E(cp_rsa_gen_small, 0), E(cp_phpe, 0), E(cp_ecdsa, 0),
 	E(cp_ecdsa_gen, 0), E(cp_ecss, 0), E(cp_ecdh, 0), E(cp_ecmqv, 0), E(cp_ecies, 0), E(cp_vbnn, 0), E(cp_pokdl, 0),
@@ -959,7 +1020,7 @@ static void need_keys(void) {
 static void need_keys(void);
 static void run_op(const op_t *op, const uint8_t *seed, size_t seed_len, uint64_t fill, long fail1, long fail2,
 		int *thrown) {
-	if (strncmp(op->name, "cp_rsa", 6) == 0 || strncmp(op->name, "cp_phpe", 7) == 0) need_keys();
+	if (strncmp(op->name, "cp_rsa", 6) == 0 || strncmp(op->name, "cp_phpe", 7) == 0 || strncmp(op->name, "cap_rsa", 7) == 0) need_keys();
 	if (cur_curve < 0) set_curve("NIST_P256");
 	sim_reseed_fresh(seed, seed_len);
 	setup_inputs();
@@ -1004,6 +1065,7 @@ static void engine_run(void) {
 		if (sl <= 0) { seed[0] = 1; sl = 1; }
 		const char *sz = tok_kv(tok, n, "size");
 		snprintf(size_cls, sizeof(size_cls), "%s", sz ? sz : "norm");
+		cap_delta = tok_kv_long(tok, n, "cap", 0);
 		cnt = (int)(tok_kv_long(tok, n, "n", 3) % NMAX);
 		if (cnt < 0) cnt = 3;
 		const char *fl = tok_kv(tok, n, "fill");
@@ -1020,7 +1082,9 @@ static void engine_run(void) {
 		static uint8_t base[OUTMAX];
 		size_t base_len;
 		fprintf(stderr, "SIMPROGRESS op=%s k=0\n", op->name);
+		cap_log = 1;
 		run_op(op, seed, (size_t)sl, fa, 0, 0, &thrown);
+		cap_log = 0;
 		long A = sim_alloc.count;
 		long live0 = sim_alloc.live;
 		int code0 = err_get_code() != RLC_OK;
